@@ -596,6 +596,42 @@ func (m *Model) RunKinds(s *Sink, rule string) {
 					stack = append(stack, sc)
 				}
 			}
+			// the loop runs over all the fields: a counter compared with anything but NumField() stops early (a count of the
+			// exported fields is smaller than the index of the last exported field when an unexported one precedes it)
+			for b := range li.body {
+				iff, ok := b.Instrs[len(b.Instrs)-1].(*ssa.If)
+				if !ok {
+					continue
+				}
+				exits := !li.body[iff.Block().Succs[0]] || !li.body[iff.Block().Succs[1]]
+				bo, isBo := iff.Cond.(*ssa.BinOp)
+				if !exits || !isBo || (bo.Op != token.LSS && bo.Op != token.GTR && bo.Op != token.LEQ && bo.Op != token.GEQ) {
+					continue
+				}
+				isNumField := func(v ssa.Value) bool {
+					c, isC := v.(*ssa.Call)
+					if !isC {
+						return false
+					}
+					if c.Call.IsInvoke() {
+						return c.Call.Method.Name() == "NumField"
+					}
+					return c.Call.StaticCallee() != nil && c.Call.StaticCallee().Name() == "NumField"
+				}
+				bound := bo.Y
+				if bo.Op == token.GTR || bo.Op == token.GEQ {
+					bound = bo.X
+				}
+				if _, isPhi := bo.X.(*ssa.Phi); !isPhi && (bo.Op == token.LSS || bo.Op == token.LEQ) {
+					continue // not a counter test
+				}
+				kb := fnKey(ns) + "|the loop over the fields runs to NumField()"
+				if isNumField(bound) && (bo.Op == token.LSS || bo.Op == token.GTR) {
+					s.OK(rule, kb, m.InstrPos(iff), "i < NumField()")
+				} else {
+					s.Violation(rule, kb, m.InstrPos(iff), "%s stops its loop over the struct's fields at %s instead of NumField(): fields are indexed in declaration order, exported or not, so an exported field declared after an unexported one can lie beyond that bound and is missing from the object (and an unsupported value in it is not reported)", fnKey(ns), valueDesc(bound))
+				}
+			}
 			key := fnKey(ns) + "|every exported field becomes a property"
 			if around == "" {
 				s.OK(rule, key, m.Pos(ns.Pos()), "within a pass of the loop over the fields the property store can only be by-passed over the !IsExported() edge (or by leaving the function)")
